@@ -178,6 +178,10 @@ def families(tier, seed):
             def run(sh=sh, fml=fml):
                 return harness.verify(bn.h_formula(fml), sh, kind='automaton')
             out.append(dict(name=f'add_expr primed [{cname}] {fml}', run=run, label='per-shape'))
+        for ops, fml in bn.PRIMED_DEFS:
+            def run(sh=sh, fml=fml, ops=ops):
+                return harness.verify(bn.h_formula(fml, with_ops=ops), sh, kind='automaton')
+            out.append(dict(name=f'add_expr primed use of a registered operator [{cname}] {fml}', run=run, label='per-shape'))
     return out
 
 
